@@ -155,6 +155,7 @@ def c08_remove_genes(E, shapes=SHAPES, generated=False):
     else:
         t0 = instantiate(shapes[E.choice("shape", len(shapes))], PLAIN)
     t1 = ("or", "gA", ("and", "gB", "gC"))
+    sp = E.pick("rule_spelling", ["lower", "bitwise", "upper"])      # how the rules were written when they were assigned
     m = Model("rg")
     A, B = Metabolite("A", compartment="c"), Metabolite("B", compartment="c")
     rs = []
@@ -162,7 +163,7 @@ def c08_remove_genes(E, shapes=SHAPES, generated=False):
         r = Reaction("R%d" % i)
         r.add_metabolites({A: -1, B: 1})
         if t is not None:
-            r.gene_reaction_rule = to_text(t)
+            r.gene_reaction_rule = to_text(t, sp)
         rs.append(r)
     m.add_reactions(rs)
     genes = sorted(g.id for g in m.genes)
@@ -171,7 +172,7 @@ def c08_remove_genes(E, shapes=SHAPES, generated=False):
         return
     rr = E.flag("remove_reactions")
     arg = E.pick("arg", ["ids", "objects"])
-    E.note(rules=[str(t0), str(t1)], removed=removed, remove_reactions=rr)
+    E.note(rules=[str(t0), str(t1)], removed=removed, remove_reactions=rr, spelling=sp)
     if E.flag("compared_before"):
         # a rule that was converted / compared earlier in its life (the usual case in a session)
         for r in m.reactions:
